@@ -296,18 +296,20 @@ def _r10e(rep):
         if isinstance(n, ast.Call) and isinstance(n.func, ast.Attribute) and n.func.attr == "append" and len(n.args) == 1:
             apps[core.src(n.func.value)] = core.src(n.args[0])
     want = {"fe": "props[0]", "entropy": "props[1] * 1000", "cv": "props[2] * 1000"}
-    rep.instance("R10e", PY, "ThermalProperties._run_py_thermal_properties", core.norm(str(apps)), apps == want,
+    same_apps = set(apps) == set(want) and all(symalg.same(symalg.open_expr(apps[k]), symalg.open_expr(want[k]))[0] for k in want)
+    rep.instance("R10e", PY, "ThermalProperties._run_py_thermal_properties", core.norm(str(apps)), same_apps,
                  f"Python route scaling differs from {want}", line=fn.lineno)
     gp = core.find_def(PY, "ThermalProperties._get_py_thermal_properties")
     ret = [s for s in ast.walk(gp) if isinstance(s, ast.Return)][0]
     rep.instance("R10e", PY, "ThermalProperties._get_py_thermal_properties", core.src(ret),
-                 core.src(ret.value) == "(self.run_free_energy(t), self.run_entropy(t), self.run_heat_capacity(t))",
+                 isinstance(ret.value, ast.Tuple) and [[c.func.attr for c in ast.walk(e) if isinstance(c, ast.Call) and isinstance(c.func, ast.Attribute) and c.func.attr.startswith("run_")] for e in ret.value.elts] == [["run_free_energy"], ["run_entropy"], ["run_heat_capacity"]],
                  "order of (F, S, Cv) changed", line=ret.lineno)
     # C route
     fn = core.find_def(PY, "ThermalProperties._run_c_thermal_properties")
     stm = {core.src(s.targets[0]): s for s in fn.body if isinstance(s, ast.Assign) and len(s.targets) == 1}
-    aug = [s for s in fn.body if isinstance(s, ast.AugAssign)]
-    ok_norm = len(aug) == 1 and core.src(aug[0]) == "props /= np.sum(self._weights)"
+    WSUM = ("np.sum(self._weights)", "self._weights.sum()", "float(np.sum(self._weights))", "sum(self._weights)", "np.sum(self._weights, dtype='double')")
+    aug = [s for s in fn.body if isinstance(s, ast.AugAssign) and core.src(s.target) == "props"] + [s for s in fn.body if isinstance(s, ast.Assign) and core.src(s.targets[0]) == "props" and isinstance(s.value, ast.BinOp) and core.src(s.value.left) == "props"]
+    ok_norm = len(aug) == 1 and isinstance(aug[0].op if isinstance(aug[0], ast.AugAssign) else aug[0].value.op, ast.Div) and core.src(aug[0].value if isinstance(aug[0], ast.AugAssign) else aug[0].value.right).replace('"', "'") in WSUM
     rep.instance("R10e", PY, "ThermalProperties._run_c_thermal_properties", "props /= np.sum(self._weights)", ok_norm,
                  "C route is not normalised by sum(weights) exactly once", line=fn.lineno)
     want_c = {
